@@ -1629,6 +1629,41 @@ fn bam_case(ctx: &mut Ctx, refs: &[Vec<u8>], r: &MRec, case: &str, emit_corr: bo
     if num_norm(via_bam) != num_norm(&base_norm(r)) {
         ctx.fail("bam-roundtrip", format!("record {} reads back from BAM as {}", show_rec(r), show_rec(via_bam)), case.into());
     }
+    // SAM text -> LAZY sam::Record -> BAM writer (the conversion pipe that never builds a RecordBuf):
+    // the BAM record must read back as the same record
+    if let Ok(line) = real_write(&h, &real) {
+        ctx.eval(None);
+        let lazy = panic_class(guarded(|| {
+            let mut text = line.clone();
+            text.push(b'\n');
+            let mut rd = sam::io::Reader::new(&text[..]);
+            let mut rec = sam::Record::default();
+            rd.read_record(&mut rec).map_err(|e| format!("lazy-read:{}", errclass(&e)))?;
+            let mut w = bam::io::Writer::from(Vec::new());
+            w.write_header(&h).map_err(|e| format!("header:{}", errclass(&e)))?;
+            w.write_alignment_record(&h, &rec).map_err(|e| errclass(&e).to_string())?;
+            let bytes = w.into_inner();
+            let mut rd = bam::io::Reader::from(&bytes[..]);
+            let h2 = rd.read_header().map_err(|e| format!("read-header:{}", errclass(&e)))?;
+            let mut out = RecordBuf::default();
+            match rd.read_record_buf(&h2, &mut out) {
+                Ok(0) => Err("read:eof".to_string()),
+                Ok(_) => Ok(from_real(&out)),
+                Err(e) => Err(format!("read:{}", errclass(&e))),
+            }
+        }));
+        match lazy {
+            Ok(p) => {
+                let (a, b) = if exact { (num_norm(&p), num_norm(via_bam)) } else { (num_norm(&base_norm(&p)), num_norm(&base_norm(via_bam))) };
+                if a != b {
+                    ctx.fail("sam-bam-lazy-differ", format!("record {}: its SAM line read lazily and written to BAM reads back as {}, the RecordBuf written to BAM as {}", show_rec(r), show_rec(&p), show_rec(via_bam)), case.into());
+                } else {
+                    ctx.bump("sam_lazy_to_bam_agrees");
+                }
+            }
+            Err(c) => ctx.fail("sam-bam-lazy-differ", format!("record {}: its SAM line read lazily and written to BAM: {c}; the RecordBuf written to BAM reads back as {}", show_rec(r), show_rec(via_bam)), case.into()),
+        }
+    }
 }
 
 // ------------------------------------------------------------------ oracle: whole files, both formats, both directions
